@@ -1,6 +1,7 @@
 package props
 
 import (
+	"bytes"
 	stdjson "encoding/json"
 	"fmt"
 	"io"
@@ -170,6 +171,75 @@ func c16EncodeBatch(c *rt.Ctx, sub int, k intKind, vals []*big.Int) {
 	}
 	c.NonTrivialEnum(int64(n))
 	c.Obs("encode_values:"+k.name, int64(n))
+}
+
+// c16Interpreters: the five positions once more through the other three interpreters (indent,
+// colour with a scheme that adds nothing, colour+indent) - each has its own copy of every integer
+// opcode; the texts must be the plain ones once the white space is taken out.
+func c16Interpreters(c *rt.Ctx, sub int, k intKind, vals []*big.Int) {
+	if len(vals) == 0 || !c.Cur(sub, fmt.Sprintf("interpreters %s %d values", k.name, len(vals))) {
+		return
+	}
+	scheme := &gojson.ColorScheme{}
+	interps := []struct {
+		name string
+		f    func(x any) ([]byte, error)
+	}{
+		{"MarshalIndent", func(x any) ([]byte, error) { return gojson.MarshalIndent(x, "", " ") }},
+		{"Colorize", func(x any) ([]byte, error) { return gojson.MarshalWithOption(x, gojson.Colorize(scheme)) }},
+		{"Colorize+Indent", func(x any) ([]byte, error) {
+			return gojson.MarshalIndentWithOption(x, "", " ", gojson.Colorize(scheme))
+		}},
+	}
+	strT := reflect.StructOf([]reflect.StructField{{Name: "V", Type: k.t, Tag: `json:"v,string"`}})
+	memT := reflect.StructOf([]reflect.StructField{{Name: "A", Type: reflect.TypeOf(""), Tag: `json:"a"`}, {Name: "V", Type: k.t, Tag: `json:"v"`}, {Name: "P", Type: reflect.PtrTo(k.t), Tag: `json:"p"`}})
+	for _, b := range vals {
+		v := reflect.New(k.t).Elem()
+		setBig(v, b)
+		txt := intText(v)
+		p := reflect.New(k.t)
+		setBig(p.Elem(), b)
+		sv := reflect.New(strT).Elem()
+		setBig(sv.Field(0), b)
+		mv := reflect.New(memT).Elem()
+		mv.Field(0).SetString("a")
+		setBig(mv.Field(1), b)
+		mv.Field(2).Set(p)
+		m := reflect.MakeMap(reflect.MapOf(k.t, reflect.TypeOf(true)))
+		m.SetMapIndex(v, reflect.ValueOf(true))
+		sl := seqOf(k.t, 2)
+		setBig(sl.Index(0), b)
+		setBig(sl.Index(1), b)
+		cases := []struct {
+			pos  string
+			x    any
+			want string
+		}{
+			{"plain", sl.Interface(), "[" + txt + "," + txt + "]"}, {"pointer", p.Interface(), txt}, {"interface", []any{v.Interface()}, "[" + txt + "]"},
+			{"string-tag", sv.Interface(), `{"v":"` + txt + `"}`}, {"member", mv.Interface(), `{"a":"a","v":` + txt + `,"p":` + txt + `}`}, {"map-key", m.Interface(), `{"` + txt + `":true}`},
+			{"map-key-nested", map[string]any{"m": m.Interface()}, `{"m":{"` + txt + `":true}}`},
+		}
+		for _, cs := range cases {
+			for _, ip := range interps {
+				var out []byte
+				var err error
+				pan, msg, _ := rt.Guard(func() { out, err = ip.f(cs.x) })
+				c.Eval(1)
+				var cb bytes.Buffer
+				if !pan && err == nil {
+					if e := stdjson.Compact(&cb, out); e != nil {
+						cb.Reset()
+						cb.Write(out)
+					}
+				}
+				if pan || err != nil || cb.String() != cs.want {
+					c.Violate(rt.Violation{Monitor: "int-encode", Entry: ip.name, Kind: "wrong-text", Ctx: k.name + ":" + cs.pos + ":" + magClass(b, k),
+						Detail: fmt.Sprintf("%s %s at %s through %s: got %q (err %v panic %v %s) want %q", k.name, b, cs.pos, ip.name, out, err, pan, msg, cs.want), Input: b.String(), Sub: sub})
+				}
+			}
+		}
+	}
+	c.Obs("interpreter_position_values:"+k.name, int64(len(vals)))
 }
 
 func magClass(v *big.Int, k intKind) string {
@@ -499,6 +569,7 @@ func init() {
 				runVals(k, vals, 0)
 				c16Positions(c, 9000, k, k.boundaries(1))
 				c16StoreWidth(c, 9050, k)
+				c16Interpreters(c, 9060, k, k.boundaries(1))
 				c16StreamBoundary(c, 9100, k, []*big.Int{k.max(), k.min(), new(big.Int).Quo(k.max(), big.NewInt(3)), new(big.Int).Quo(k.min(), big.NewInt(7)), big.NewInt(10), big.NewInt(-10), big.NewInt(99)})
 				c.Sample(map[string]any{"family": "boundary/exhaustive", "kind": k.name, "values": len(vals), "first": vals[0].String(), "last": vals[len(vals)-1].String()})
 			case c.Idx < 22:
